@@ -22,6 +22,11 @@ def mibdumpExit (ex : ExitCodes) (p : StatusMap) : Nat :=
   let c := if p.any (·.2 = .missing) then ex.missing else c
   if p.any (·.2 = .failed) then ex.failed else c
 
+/-- the whole run of `mibdump`: `--build-index` with a format whose generator cannot build one is refused as a usage
+error before anything is compiled (nothing written); otherwise the exit status follows the status map -/
+def mibdumpRun (ex : ExitCodes) (noIndex : List String) (buildIndex : Bool) (fmt : String) (p : StatusMap) : Nat × Bool :=
+  if buildIndex && noIndex.contains fmt then (ex.usage, false) else (mibdumpExit ex p, true)
+
 /-- the module names the report lists under a category, in the order the script prints them (`sorted(processed)`) -/
 def category (p : StatusMap) (s : Status) : List String :=
   ((p.filter (·.2 = s)).map (·.1)).mergeSort (fun a b => decide (a ≤ b))
